@@ -48,22 +48,23 @@ LEVEL_TEXT = ("Search over generated potentials, integrator settings and keys. T
               "turning/diverging flags, reason for stopping, validity of every doubling). What cannot be decided per "
               "case - that the random choices inside NUTS/HMC select the candidate with the right probabilities, and "
               "that momenta are refreshed from N(0, M) - is covered by fixed-key chains whose moments are compared "
-              "with known values at a threshold of 6 batch-means standard errors plus 6 i.i.d. standard errors "
-              "(analytic false-alarm probability < 1e-10 per comparison, see LEVEL_NOTE). Exploration, not proof: "
+              "with known values at a threshold of 6 batch-means standard errors plus 6 x max(batch-means, i.i.d.) standard "
+              "errors (analytic false-alarm probability < 4e-13 per comparison, see LEVEL_NOTE). Exploration, not proof: "
               "dimension <= 4, tree depth <= 7, float64.")
 LEVEL_NOTE = ("Trusted: numpy, jax.random (uniform/bernoulli/PRNGKey), jax.jit/jacfwd/grad, the harness's NumPy "
               "gradients (cross-checked against finite differences of the NumPy potential at import of a recipe). "
-              "Statistical threshold: |mean_N(f) - E f| <= 6*SE_bm + 6*sigma_f/sqrt(N), SE_bm from 32 batch means, "
-              "sigma_f the exact standard deviation of f under the target. With autocorrelation time tau the true "
-              "standard error is sigma_f*sqrt(tau/N); a false alarm needs |Z| > 6*sqrt(W) + 6/sqrt(tau) with "
-              "Z ~ N(0,1), W ~ chi2_31/31; numerically P < 2e-13 for tau <= 4 and < 1e-10 for tau <= 12 (the "
-              "generated sampler settings have measured tau <= 6); <= 300 comparisons per run => < 1e-8 per run. "
+              "Statistical threshold: |mean_N(f) - E f| <= 6*SE_bm + 6*max(SE_bm, sigma_f/sqrt(N)), N = 16384, SE_bm from "
+              "32 batch means of 512 samples (measured autocorrelation times are <= 50, so batch means are "
+              "independent), sigma_f the exact standard deviation of f under the target. With autocorrelation time "
+              "tau the true standard error is sigma_f*sqrt(tau/N); a false alarm needs |Z| > 6*sqrt(W) + "
+              "6*max(sqrt(W), 1/sqrt(tau)) with Z ~ N(0,1), W ~ chi2_31/31, which is bounded by P(|t_31| > 12) = "
+              "3.5e-13 for every tau (numerically 3e-14 at tau=4); <= 400 comparisons per run => < 2e-10 per run. "
               "The i.i.d. momentum-refresh test uses 7 sigma (Gaussian / Laurent-Massart chi-square bound, < 1e-10).")
 TECHNIQUE = "PBT: NumPy reference orbit + metamorphic reversibility/symplecticity + fixed-key chain moments"
 ASSUMPTIONS = [
     "float64; positions are arrays or jft.Vector pytrees; diagonal (inverse) mass matrices as in hmc_oo",
     "the code under test is called through jax.jit wrappers that pass the potential's parameters as arguments "
-    "(a quarter of the leapfrog cases and all chains are run un-jitted, as a user would)",
+    "(an eighth of the leapfrog cases and all chains are run un-jitted, as a user would)",
     "reference leapfrog = kick(eps/2) drift(eps) kick(eps/2) (variable names and docstring of leapfrog_step; Neal 2011)",
     "position comparisons are made only while the reference orbit stays within 1e3 x its initial magnitude "
     "(round-off amplification would otherwise exceed 1e-9); beyond that only the accept/diverging logic is checked",
@@ -81,8 +82,9 @@ ASSUMPTIONS = [
     "iterative_build_tree acknowledges it) - recorded as an observation against the docstring's 2**max_tree_depth, "
     "not demanded",
     "not demanded because the statement is silent: Tree.cumulative_acceptance, Chain.acceptance of NUTS",
-    "HMC chains on Gaussians: trajectory angle L*theta_i of every eigen-mode lies in [0.6, 2.5] rad by construction "
-    "(a fixed-length HMC chain is not ergodic when L*theta is a multiple of pi; that is not a defect)",
+    "HMC chains on Gaussians: the number of leapfrog steps is chosen by the harness (from the recipe's spectrum) so "
+    "that no eigen-mode is rotated by a multiple of pi per transition (a fixed-length HMC chain is then not ergodic; "
+    "that is not a defect) - theoretical autocorrelation time <= 5 for spectra with omega_max/omega_min <= sqrt(3)",
 ]
 
 LAYOUTS = {"scalar": 1, "flat2": 2, "flat3": 3, "dict3": 3, "nest4": 4}
@@ -243,6 +245,34 @@ def eager_step(layout, theta):
     return f
 
 
+def _unflat(layout, x):
+    jax, jnp, jft, hmc, _ = _jx()
+    if layout == "scalar":
+        return x[0]
+    if layout in ("flat2", "flat3"):
+        return x
+    if layout == "dict3":
+        return jft.Vector({"a": x[:2], "b": x[2:3]})
+    return jft.Vector(({"lvl0": x.reshape(2, 2)},))
+
+
+@functools.lru_cache(None)
+def jit_jacobian(layout):
+    """Jacobian (forward mode) of k leapfrog_step calls w.r.t. the flattened (q, p)"""
+    jax, jnp, jft, hmc, _ = _jx()
+    n = LAYOUTS[layout]
+
+    def flow(z, theta, eps, invm, k):
+        gr = jax.grad(_pot(layout, theta))
+        qp = hmc.QP(_unflat(layout, z[:n]), _unflat(layout, z[n:]))
+        qp = jax.lax.fori_loop(0, k, lambda _, a: hmc.leapfrog_step(gr, _kgrad, eps, invm, a), qp)
+        return jnp.concatenate([jflat(layout, qp.position), jflat(layout, qp.momentum)])
+
+    def f(theta, eps, invm, z, k):
+        return jax.jacfwd(flow)(z, theta, eps, invm, k)
+    return jax.jit(f)
+
+
 @functools.lru_cache(None)
 def jit_accrej(layout):
     jax, jnp, jft, hmc, _ = _jx()
@@ -350,8 +380,9 @@ def leapfrog_recipes(tier):
     @st.composite
     def rec(draw):
         r = draw(system())
-        r["k"] = draw(st.integers(1, 16 if tier == "quick" else 48))
-        r["eager"] = draw(st.integers(0, 3)) == 0
+        r["eager"] = draw(st.integers(0, 7)) == 0
+        # un-jitted calls differentiate the potential op by op (slow): few steps only
+        r["k"] = draw(st.integers(1, 2)) if r["eager"] else draw(st.integers(1, 16 if tier == "quick" else 48))
         return r
     return rec()
 
@@ -396,7 +427,7 @@ def symplectic_recipes(tier):
     @st.composite
     def rec(draw):
         r = draw(system())
-        r["k"] = draw(st.integers(1, 3 if tier == "quick" else 6))
+        r["k"] = draw(st.integers(1, 6 if tier == "quick" else 24))
         return r
     return rec()
 
@@ -410,27 +441,9 @@ def check_symplectic(rec):
     growth, _ = _growth(qs, ps)
     if growth > 1e3:
         return dict(nontrivial=False, classes=["unstable_skipped"])
-    thj = theta_j(rec)
-    gr = jax.grad(_pot(layout, thj))
-    invm_j = pack(layout, invm)
-
-    def unflat(x):
-        if layout == "scalar":
-            return x[0]
-        if layout in ("flat2", "flat3"):
-            return x
-        if layout == "dict3":
-            return jft.Vector({"a": x[:2], "b": x[2:3]})
-        return jft.Vector(({"lvl0": x.reshape(2, 2)},))
-
-    def flow(z):
-        qp = hmc.QP(unflat(z[:n]), unflat(z[n:]))
-        for _ in range(k):
-            qp = hmc.leapfrog_step(gr, _kgrad, eps, invm_j, qp)
-        return jnp.concatenate([jflat(layout, qp.position), jflat(layout, qp.momentum)])
-
     z0 = np.concatenate([q, p])
-    J = np.asarray(jax.jacfwd(flow)(jnp.asarray(z0)), dtype=np.float64)
+    J = np.asarray(jit_jacobian(layout)(theta_j(rec), eps, pack(layout, invm), jnp.asarray(z0), k),
+                   dtype=np.float64)
     require(J.shape == (2 * n, 2 * n), "jacobian_shape", str(J.shape))
     require(bool(np.all(np.isfinite(J))), "jacobian_nonfinite", repr(J))
     Om = np.block([[np.zeros((n, n)), np.eye(n)], [-np.eye(n), np.zeros((n, n))]])
@@ -453,11 +466,11 @@ def check_symplectic(rec):
     close(J, Jfd, "jacobian_vs_reference_flow", tol=1e-5, scale=max(1.0, float(np.max(aJ))) * 10.0)
     offdiag = float(np.max(np.abs(J - np.diag(np.diag(J)))))
     return dict(nontrivial=bool(offdiag > 1e-3 and (rec["kind"] != "quad" or n >= 2)),
-                classes=_sys_classes(rec) + [f"k={k}"])
+                classes=_sys_classes(rec) + ["k>=3" if k >= 3 else "k<3"])
 
 
 # ---------------------------------------------------------------------------------------------- 3 HMC accept / reject
-MAXDE = [float("inf"), float("inf"), 1000.0, 10.0, 1.0, 0.125]
+MAXDE = [None, None, 1000.0, 10.0, 1.0, 0.125]      # None: max_energy_difference = inf (the default)
 
 
 def accrej_recipes(tier):
@@ -471,15 +484,15 @@ def accrej_recipes(tier):
     return rec()
 
 
-def _js_maxde(x):
-    return float(x)
+def _maxde(rec):
+    return math.inf if rec["maxde"] is None else float(rec["maxde"])
 
 
 def check_accrej(rec):
     jax, jnp, jft, hmc, _ = _jx()
     layout, th, invm, q, p = _setup(rec)
     n = q.size
-    eps, L, maxde = rec["eps"], rec["L"], float(rec["maxde"])
+    eps, L, maxde = rec["eps"], rec["L"], _maxde(rec)
     key = jax.random.PRNGKey(rec["key"])
     res = jit_accrej(layout)(theta_j(rec), key, eps, pack(layout, invm), pack(layout, q), pack(layout, p),
                              L, maxde)
@@ -528,7 +541,6 @@ def check_accrej(rec):
             u = float(np.asarray(jax.random.uniform(key, (), dtype=jnp.float64)))
             if b_lo == b_hi:
                 # documented draw: bernoulli(key, min(1, exp(-dH))) == (uniform(key) < min(1, exp(-dH)))
-                require(b_lo == (u < p_lo), "harness_uniform_convention", f"u={u} p={p_lo}") if False else None
                 require(acc_flag == b_lo, "accept_flag_vs_uniform_draw",
                         f"accepted={acc_flag} expected={b_lo} u={u} p=min(1,exp(-dH))={p_lo} dH={dH}")
                 decided = True
@@ -557,7 +569,7 @@ def check_accrej(rec):
 
 
 # ---------------------------------------------------------------------------------------------- 4 NUTS tree
-NUTS_MENU = [("scalar", 5, True), ("flat2", 0, True), ("flat2", 3, False), ("flat2", 6, True),
+NUTS_MENU = [("scalar", 5, True), ("flat2", 1, True), ("flat2", 3, False), ("flat2", 6, True),
              ("flat3", 4, True), ("dict3", 2, True), ("dict3", 5, False), ("nest4", 4, True)]
 
 
@@ -565,10 +577,10 @@ def nuts_recipes(tier):
     @st.composite
     def rec(draw):
         m = draw(st.integers(0, len(NUTS_MENU) - 1))
-        r = draw(system(layouts=(NUTS_MENU[m][0],), boost=(1, 1, 2, 2, 4, 8)))
+        r = draw(system(layouts=(NUTS_MENU[m][0],), boost=(1, 2, 2, 4, 4, 8)))
         r["menu"] = m
         r["key"] = draw(KEY)
-        r["maxde"] = draw(st.sampled_from([float("inf"), float("inf"), 1000.0, 1000.0, 4.0, 0.5, 0.0625]))
+        r["maxde"] = draw(st.sampled_from([None, None, 1000.0, 1000.0, 4.0, 0.5, 0.0625]))
         return r
     return rec()
 
@@ -707,7 +719,7 @@ def check_nuts(rec):
     n = q.size
     lay, D, bias = NUTS_MENU[rec["menu"]]
     assert lay == layout
-    eps, maxde = rec["eps"], float(rec["maxde"])
+    eps, maxde = rec["eps"], _maxde(rec)
     key = jax.random.PRNGKey(rec["key"])
     tr = jit_nuts(layout, D, bias)(theta_j(rec), key, eps, pack(layout, invm), pack(layout, q),
                                    pack(layout, p), maxde)
@@ -759,8 +771,8 @@ def check_nuts(rec):
 
 # ---------------------------------------------------------------------------------------------- 5/6 chains
 NB = 32          # batches
-NKEEP = 4096     # kept samples
-NBURN = 256
+NKEEP = 16384    # kept samples (32 batches of 512)
+NBURN = 512
 
 
 def _rot(n, angles):
@@ -785,7 +797,7 @@ def chain_recipes(sampler):
                 layout = draw(st.sampled_from(["flat2", "flat3", "dict3", "nest4"]))
                 n = LAYOUTS[layout]
                 r = {"target": target, "layout": layout,
-                     "lam": [1.0] + draw(S.vec(n - 1, S.dyadic(1.0, 6.0 if sampler == "hmc" else 16.0, 4))),
+                     "lam": [1.0] + draw(S.vec(n - 1, S.dyadic(1.0, 3.0 if sampler == "hmc" else 16.0, 4))),
                      "angles": draw(S.vec(n * (n - 1) // 2, S.dyadic(-3.0, 3.0, 8))),
                      "scale": draw(S.dyadic(0.5, 4.0, 4)),
                      "mu": draw(S.vec(n, S.dyadic(-2.0, 2.0, 4)))}
@@ -793,13 +805,13 @@ def chain_recipes(sampler):
                 layout = draw(st.sampled_from(["scalar", "flat2"]))
                 n = LAYOUTS[layout]
                 C = np.array(draw(S.mat(n, n, S.dyadic(-0.5, 0.5, 4))))
-                r = {"target": target, "layout": layout, "A": ((C + C.T) / 2.0).tolist(),
+                C = (C + C.T) / 2.0 + 0.25 * np.eye(n)      # diagonal in [-0.25, 0.75]: shallow double wells at most
+                r = {"target": target, "layout": layout, "A": C.tolist(),
                      "mu": draw(S.vec(n, D4)), "a": draw(S.vec(n, S.dyadic(0.5, 2.0, 4)))}
             r["invm"] = draw(st.one_of(st.just([1.0] * n), S.vec(n, S.dyadic(0.5, 2.0, 4)),
                                        S.vec(n, S.dyadic(0.5, 2.0, 4))))
-            r["f"] = draw(S.dyadic(0.375, 0.875, 8))
+            r["f"] = draw(S.dyadic(0.5, 1.375, 8)) if target == "gauss" else draw(S.dyadic(0.375, 0.875, 8))
             if sampler == "hmc":
-                r["psi"] = draw(S.dyadic(1.75, 2.25, 8))
                 r["L"] = draw(st.integers(4, 10))
             else:
                 r["max_depth"] = draw(st.integers(6, 8))
@@ -841,7 +853,7 @@ def _target(rec):
     mu = np.array(rec["mu"], dtype=np.float64)
     a = np.array(rec["a"], dtype=np.float64)
     th = (A, mu, a, np.float64(0.0))
-    g = np.linspace(-8.0, 8.0, 1601)
+    g = np.linspace(-8.0, 8.0, 801)       # trapezoid rule, integrand ~ exp(-x^4): spectrally accurate
     if n == 1:
         X = g[:, None]
     else:
@@ -872,6 +884,9 @@ def _target(rec):
     return th, invm, moms, start, omega
 
 
+_TRACE = None    # calibration hook (tools only): list collecting (name, err, se_bm, se_iid)
+
+
 def _moment_checks(rec, X, moms, cls):
     N = X.shape[0]
     assert N == NKEEP
@@ -881,12 +896,14 @@ def _moment_checks(rec, X, moms, cls):
         require(bool(np.all(np.isfinite(v))), "chain_nonfinite_samples", name)
         bm = v.reshape(NB, -1).mean(axis=1)
         se = float(bm.std(ddof=1)) / math.sqrt(NB)
-        thr = 6.0 * se + 6.0 * sigma / math.sqrt(N)
+        thr = 6.0 * se + 6.0 * max(se, sigma / math.sqrt(N))
         err = abs(float(v.mean()) - mean)
         worst = max(worst, err / thr)
+        if _TRACE is not None:
+            _TRACE.append((name, err, se, sigma / math.sqrt(N)))
         require(err <= thr, "chain_moment_" + name.translate({ord(c): None for c in "0123456789"}),
-                f"{name}: sample {v.mean():.5f} target {mean:.5f} |err|={err:.4f} > 6*SE_bm({se:.4f}) + "
-                f"6*sigma/sqrt(N)({sigma / math.sqrt(N):.4f})")
+                f"{name}: sample {v.mean():.5f} target {mean:.5f} |err|={err:.4f} > 6*SE_bm + 6*max(SE_bm, SE_iid), "
+                f"SE_bm={se:.5f} SE_iid={sigma / math.sqrt(N):.5f}")
     cls.append("worst_err/thr<0.25" if worst < 0.25 else ("worst_err/thr<0.5" if worst < 0.5 else "worst_err/thr>=0.5"))
 
 
@@ -895,6 +912,21 @@ def _mass_arg(rec, layout, invm):
     if rec["scalar_mass_arg"] and np.all(invm == invm[0]):
         return float(invm[0]), "mass_arg_float"
     return pack(layout, invm), "mass_arg_tree"
+
+
+def _tune_hmc_length(eps, omega):
+    """number of leapfrog steps for a Gaussian target: leapfrog rotates eigen-mode i by theta_i per step
+    (cos theta_i = 1 - (eps omega_i)^2 / 2), so an (always accepted) HMC chain has lag-1 autocorrelation
+    rho_i = cos(L theta_i) in that mode (rho_i^2 for its square). L minimises the worst integrated
+    autocorrelation time; a fixed-length chain with L theta_i = k pi would not be ergodic at all."""
+    theta = np.arccos(1.0 - 0.5 * (eps * omega) ** 2)
+    best = None
+    for L in range(1, 41):
+        rho = np.cos(L * theta)
+        tau = float(np.max(np.maximum((1 + rho) / (1 - rho), (1 + rho ** 2) / (1 - rho ** 2 + 1e-300))))
+        if best is None or tau < best[1]:
+            best = (L, tau)
+    return best
 
 
 def check_chain_hmc(rec):
@@ -906,8 +938,7 @@ def check_chain_hmc(rec):
     wmax = float(np.max(omega))
     eps = rec["f"] / wmax
     if rec["target"] == "gauss":
-        theta_max = math.acos(1.0 - 0.5 * (eps * wmax) ** 2)
-        L = max(2, int(round(rec["psi"] / theta_max)))
+        L, _ = _tune_hmc_length(eps, omega)
     else:
         L = rec["L"]
     marg, mcls = _mass_arg(rec, layout, invm)
@@ -948,7 +979,6 @@ def check_chain_hmc(rec):
         require(abs(m2 - 1.0) <= 7.0 * math.sqrt(2.0 / N), "momentum_refresh_variance",
                 f"component {i}: E[p^2 invm] = {m2} (invm={invm[i]})")
     accrate = float(acc.mean())
-    require(accrate > 0.3, "harness_sampler_setting_mixes_badly", f"acceptance {accrate}") if False else None
     cls.append("acc>0.9" if accrate > 0.9 else ("acc>0.7" if accrate > 0.7 else "acc<=0.7"))
     _moment_checks(rec, X[NBURN:], moms, cls)
     return dict(nontrivial=bool(accrate < 0.999 or rec["target"] == "quartic"), classes=cls)
@@ -1045,13 +1075,13 @@ SUBS = [
              "diverging flag; non-trivial = depth >= 2 and the tree extends in both time directions"),
     Sub(name="chain_hmc", check=check_chain_hmc, strategy=chain_recipes("hmc"), quick=8, thorough=64, shards=4,
         jax=True, budget_quick=120.0,
-        rule="HMCChain.generate_n_samples, 256+4096 samples, fixed key from the recipe, Gaussian (rotated, scaled, "
+        rule="HMCChain.generate_n_samples, 512+16384 samples, fixed key from the recipe, Gaussian (rotated, scaled, "
              "non-unit mass) and quartic (1-d / coupled 2-d incl. double wells) targets: chain bookkeeping, first 48 "
              "proposals == reference leapfrog, refreshed momenta ~ N(0, M) (7 sigma, i.i.d.), moments within "
-             "6 SE_bm + 6 sigma/sqrt(N); non-trivial = some proposals rejected or non-Gaussian target"),
+             "6 SE_bm + 6 max(SE_bm, sigma/sqrt(N)); non-trivial = some proposals rejected or non-Gaussian target"),
     Sub(name="chain_nuts", check=check_chain_nuts, strategy=chain_recipes("nuts"), quick=8, thorough=64, shards=4,
         jax=True, budget_quick=120.0,
-        rule="NUTSChain.generate_n_samples, 256+4096 samples, same targets, biased and unbiased transitions: samples "
+        rule="NUTSChain.generate_n_samples, 512+16384 samples, same targets, biased and unbiased transitions: samples "
              "== candidates, first 32 trees are reference orbits through the previous sample, moments within "
-             "6 SE_bm + 6 sigma/sqrt(N); non-trivial = mean tree depth >= 1.5"),
+             "6 SE_bm + 6 max(SE_bm, sigma/sqrt(N)); non-trivial = mean tree depth >= 1.5"),
 ]
